@@ -50,6 +50,15 @@ P = {
  "C17": ("fault_enumeration", "5/C17", "fault enumeration over (backend, operation, n-th call, variant) with TLC trace validation of every run against Libec + ledger rules",
          "Each backend operation is made to fail at each position of a scripted workload; the recorded history must satisfy: error returned, delta 0, nothing owed, registry unchanged, continuation succeeds.",
          "TLC; failing stubs installed through the backend's exported operation table; reference ISA-L plug-in's inversion-failure knob."),
+ "C15": (MC, "5/C15", "TLC trace validation of decode/reconstruct/metadata/validation/encode runs whose inputs sit on read-only pages ending at a guard page, and of encode digests across histories (TracePure)",
+         "Stray writes and over-reads become Fault events through page protection; history independence is a TLC state variable seen[(configuration,data)] compared over a fresh process, random API histories, other live instances, injected failures and a second thread.",
+         "TLC; mprotect/PROT_NONE as the monitor for stray accesses; FNV digest of all fragment bytes (full bytes are compared in C07 for small inputs)."),
+ "C18": (MC, "5/C18", "TLC model checking of all interleavings of the registry/GF-table protocol (NoRace, NoBad, UniqueDesc) + replay of TLC-generated schedules on real threads through guarded yield hooks + TLC validation of lock-annotated traces + ThreadSanitizer stress",
+         "The protocol model is explored exhaustively; every transition of its state graph yields a schedule that is replayed step by step on real threads parked at the yield points, and every recorded schedule (controlled and free-running) must be a behaviour of the model with exactly the locks really held; TSan observes what lies below the yield granularity.",
+         "TLC; yield hooks guarded by LIBERASURECODE_VERIF; lock wrappers by -D redirection; ThreadSanitizer/ASan."),
+ "C19": (MC, "5/C19", "TLC model checking of the transcribed ISA-L adapter row synthesis for both generators + TLC trace validation of decode/reconstruct/fragments-needed runs over a clean-room reference plug-in, with GF(2^8) invertibility decided per event",
+         "Exactness for invertible survivor sets is an invariant of the transcription; refusals of the real adapter are accepted only where TLC finds the survivor matrix singular; the reference plug-in is itself compared byte for byte with IsaL.tla.",
+         "TLC; verif-owned reference libisal.so.2 implementing the five documented primitives."),
  "C20": (MC, "5/C20", "TLC trace validation of forced-check decodes over every absent/intact/damaged assignment of small stripes",
          "rc=0 => original bytes; valid fragments alone within tolerance => success.", "TLC; driver memcmp; ASan/UBSan."),
 }
